@@ -120,7 +120,19 @@ func (node *TopNode) resolveKeepSplit(s *syntax.SplitExp, t syntax.Type,
 			}
 		}
 	}
-	_, r, err := node.resolve(s.Value, t, fork, readSize)
+	// The value of the split is the whole collection, not one element of it.
+	outerT := t
+	if s.Source != nil {
+		switch s.Source.CallMode() {
+		case syntax.ModeArrayCall:
+			outerT = node.types.GetArray(t, 1)
+		case syntax.ModeMapCall:
+			if t.TypeId().MapDim == 0 {
+				outerT = node.types.GetMap(t)
+			}
+		}
+	}
+	_, r, err := node.resolve(s.Value, outerT, fork, readSize)
 	if err != nil {
 		err = &elementError{
 			element: "resolving unmatched split",
